@@ -1,10 +1,12 @@
 package srvp
 
 import (
+	"errors"
 	"fmt"
 	"io"
 	"os"
 	"path/filepath"
+	"sync/atomic"
 	"testing"
 
 	"github.com/tailscale/setec/audit"
@@ -27,6 +29,24 @@ import (
 type ServedCase struct {
 	Ops  []dbx.Op `json:"ops"`
 	Fail []bool   `json:"fail"` // per op: if the request would write, its save fails
+	// per op: the server is restarted right before the request (so a failing save may be the FIRST save
+	// of the new process)
+	Restart []bool `json:"restart,omitempty"`
+	// per op: the audit device fails while the request is served (another file-system step of the
+	// call); the server is restarted afterwards, because the audit writer does not recover
+	AuditFail []bool `json:"audit_fail,omitempty"`
+}
+
+// c04Sink is the audit device of these histories: fine unless told to fail (at Sync, after the record
+// was accepted - the latest point a file-system step of the call can fail).
+type c04Sink struct{ fail atomic.Bool }
+
+func (s *c04Sink) Write(p []byte) (int, error) { return len(p), nil }
+func (s *c04Sink) Sync() error {
+	if s.fail.Load() {
+		return errors.New("injected: fsync of the audit log failed")
+	}
+	return nil
 }
 
 func runC04Served(t *testing.T, c ServedCase) (*h.Violation, h.Info) {
@@ -36,21 +56,60 @@ func runC04Served(t *testing.T, c ServedCase) (*h.Violation, h.Info) {
 	state := filepath.Join(dir, "state")
 	os.MkdirAll(state, 0o700)
 	path := filepath.Join(state, "db")
-	d, err := db.Open(path, dbx.DummyKey(), audit.New(io.Discard))
-	if err != nil {
-		return h.V("harness", "open: %v", err), info
-	}
 	su := dbx.Super()
-	ht, err := dbx.NewHTTP(d, []dbx.CallerM{su})
-	if err != nil {
-		return h.V("harness", "server.New: %v", err), info
+	var sink *c04Sink
+	var ht *dbx.HTTPTarget
+	start := func() *h.Violation {
+		sink = &c04Sink{}
+		d, err := db.Open(path, dbx.DummyKey(), audit.New(sink))
+		if err != nil {
+			return h.V("file-holds-the-acknowledged-state", "(re)start: %v", err)
+		}
+		if ht, err = dbx.NewHTTP(d, []dbx.CallerM{su}); err != nil {
+			return h.V("harness", "server.New: %v", err)
+		}
+		return nil
+	}
+	if v := start(); v != nil {
+		return v, info
 	}
 	tr := dbx.NewTracker()
 	tr.Wire = true
 	probe := map[string][]uint32{}
 	failures := 0
 	for i, op := range c.Ops {
+		if i < len(c.Restart) && c.Restart[i] {
+			if v := start(); v != nil {
+				return v, info
+			}
+			info.Class("server-restarted-before-a-request")
+		}
 		ver := tr.Resolve(op)
+		if i < len(c.AuditFail) && c.AuditFail[i] && op.Mutating() {
+			// the audit device fails during this request: whatever the request reports, a reported
+			// error means the pre-call state is what is served (and stored) afterwards
+			shadow := tr.Clone()
+			want := shadow.Expect(su.Rules, op, ver)
+			sink.fail.Store(true)
+			got := ht.Do(su, op, ver)
+			sink.fail.Store(false)
+			info.Class("audit-device-failed-during-" + op.Kind)
+			if got.Class == model.OK && want.Class == model.OK {
+				tr = shadow // it went through
+			}
+			failures++
+			if v := start(); v != nil {
+				return v, info
+			}
+			served, err := dbx.DumpVia(ht, su, probe)
+			if err != nil {
+				return h.V("served-state-is-the-pre-call-state", "step %d %s reported %s while the audit device was failing; after a restart: %v", i, op, got, err), info
+			}
+			if diff := dbx.DumpDiff(served, tr.M); diff != "" {
+				return h.V("served-state-is-the-pre-call-state", "step %d %s reported %s while the audit device was failing (a call that reports an error did not happen); after a restart the server serves: %s", i, op, got, diff), info
+			}
+			continue
+		}
 		failing := false
 		if i < len(c.Fail) && c.Fail[i] && op.Mutating() {
 			shadow := tr.Clone()
@@ -117,7 +176,7 @@ func runC04Served(t *testing.T, c ServedCase) (*h.Violation, h.Info) {
 
 var c04served = &h.Campaign[ServedCase]{
 	Prop: "C04", Sub: "served-after-failed-save",
-	Rule: "rapid: a history of 1-30 calls (all seven operations, generated names / values / version selectors) sent through the registered HTTP handlers + setec.Client; behind a generated subset of the requests that would write, the save fails (state directory renamed away while the request is served); such a request must not report success, and right afterwards the complete state read back THROUGH THE API (list, info, get, every version, conditional gets naming every existing version, the version the failed request named, and the next ones) equals the pre-call state; later requests agree with the model; a restart finds the model's state; non-trivial = at least one save failed; distinct by scenario",
+	Rule:  "rapid: a history of 1-30 calls (all seven operations, generated names / values / version selectors) sent through the registered HTTP handlers + setec.Client; behind a generated subset of the requests that would write, the save fails (state directory renamed away while the request is served); such a request must not report success, and right afterwards the complete state read back THROUGH THE API (list, info, get, every version, conditional gets naming every existing version, the version the failed request named, and the next ones) equals the pre-call state; later requests agree with the model; a restart finds the model's state; non-trivial = at least one save failed; distinct by scenario",
 	Quick: 700, Thorough: 60000,
 	Gen: func(rt *rapid.T) ServedCase {
 		ops := dbx.GenHistory(rt, 1, 30)
@@ -130,7 +189,20 @@ var c04served = &h.Campaign[ServedCase]{
 			}
 			fail[i] = rapid.IntRange(0, q-1).Draw(rt, fmt.Sprintf("fail%d", i)) == 0
 		}
-		return ServedCase{Ops: ops, Fail: fail}
+		c := ServedCase{Ops: ops, Fail: fail}
+		if rapid.Bool().Draw(rt, "with-restarts") {
+			c.Restart = make([]bool, len(ops))
+			for i := range c.Restart {
+				c.Restart[i] = rapid.IntRange(0, 3).Draw(rt, fmt.Sprintf("restart%d", i)) == 0
+			}
+		}
+		if rapid.IntRange(0, 2).Draw(rt, "with-audit-faults") == 0 {
+			c.AuditFail = make([]bool, len(ops))
+			for i := range c.AuditFail {
+				c.AuditFail[i] = rapid.IntRange(0, 5).Draw(rt, fmt.Sprintf("auditfail%d", i)) == 0
+			}
+		}
+		return c
 	},
 	Run: runC04Served,
 }
